@@ -13,6 +13,8 @@ KINDS_FOR = {
     "C07": ALL_RES,
     "C11": ["buf", "buf", "buf", "flt", "bufs"],
     "C18": ["buf", "flt", "cconv", "sconv"],
+    "C20": ["fls", "flt", "cconv", "sconv", "buf"],
+    "C14": ["fls", "flt"],
 }
 
 PRIO_ALPHABETS = [[0], [0, 1], [-1, 0, 0, 2], [0, 0, 1], [-2, -1, 0, 1, 2], [5, 5, 5, 1]]
@@ -27,6 +29,8 @@ PROFILE = {
     "C07": dict(rp=2.5, rg=2.5, put=2.5, get=2.0, cancel=1.0, adv=1.2, mis=1.6, probe=0.0),
     "C11": dict(rp=2.5, rg=2.5, put=3.0, get=2.0, cancel=1.2, adv=2.5, mis=0.0, probe=2.5),
     "C18": dict(rp=2.5, rg=2.5, put=3.0, get=2.5, cancel=0.6, adv=2.5, mis=0.0, probe=0.0),
+    "C20": dict(rp=3.0, rg=2.5, put=3.0, get=2.0, cancel=1.0, adv=3.0, mis=0.0, probe=0.0),
+    "C14": dict(rp=3.5, rg=2.0, put=4.0, get=2.0, cancel=0.4, adv=3.5, mis=0.0, probe=0.0),
 }
 
 
@@ -60,7 +64,7 @@ def gen_cfg(prop, rng, tier, kind=None):
             cfg["delay_form"] = "constant"   # an ill-formed call may consume a draw; not a store side effect
         cfg["const_delay"] = rng.choice(lat)
     if kind in ("fls", "flt"):
-        cfg["delay"] = rng.choice(pos + [1, 2])
+        cfg["delay"] = rng.choice(pos + [1, 2] + ([0] if prop in ("C14", "C20") else []))
         cfg["transit"] = rng.choice(lat + [0, 0.5])
     if kind == "cconv":
         cfg["item_length"] = rng.choice([1, 1, 2, 3])
